@@ -120,7 +120,19 @@ func genSysCase(r *vh.Rand) Case {
 		//   flat   : root -> team route carrying the lists
 		//   inner  : root -> mid route carrying the lists -> (mid2 ->) leaf "team" WITHOUT lists: always notifies
 		//   leaf   : root -> mid route with other/no lists -> leaf "team" carrying the lists
-		shape := vh.Pick(r, []string{"flat", "flat", "inner", "leaf"})
+		shape := vh.Pick(r, []string{"flat", "flat", "inner", "leaf", "siblings"})
+		if shape == "siblings" {
+			in.D, in.Sil, in.K, in.GI = 0, nil, 1, 3600
+			in.GW = vh.Pick(r, []int64{1, 10, 30})
+			gip := vh.Pick(r, []int64{30, 60})
+			resolve := in.GW + vh.Pick(r, []int64{15, 40, 50})
+			refire := resolve + 2*gip + 30 + vh.Pick(r, []int64{45, 70, 100}) // pager flushed the resolved alert, maintenance ran
+			in.Sib = &SibIn{GIp: gip, ResolveAfter: resolve, RefireAt: refire, Queries: []int64{in.GW + 5, refire + 2, refire + 20}}
+			in.Start = edge - in.GW + vh.Pick(r, []int64{-90, -30, 30, 90, 150})
+			if in.Start < y2000+86400 {
+				continue
+			}
+		}
 		lists := func(indent string, mu, ac []string) {
 			if mu != nil {
 				fmt.Fprintf(&sb, "%smute_time_intervals: [%s]\n", indent, strings.Join(mu, ", "))
@@ -131,7 +143,10 @@ func genSysCase(r *vh.Rand) Case {
 		}
 		sb.WriteString("route:\n  receiver: default\n  group_by: [alertname]\n  routes:\n")
 		indent := "    "
-		if shape != "flat" {
+		if shape == "siblings" {
+			fmt.Fprintf(&sb, "    - receiver: pager\n      matchers: ['team=~\".+\"']\n      continue: true\n      group_wait: %ds\n      group_interval: %ds\n      repeat_interval: 1s\n", in.GW, in.Sib.GIp)
+		}
+		if shape != "flat" && shape != "siblings" {
 			levels := r.Range(1, 2)
 			for l := 0; l < levels; l++ {
 				fmt.Fprintf(&sb, "%s- receiver: default\n%s  matchers: ['team=\"x\"']\n", indent, indent)
@@ -150,7 +165,7 @@ func genSysCase(r *vh.Rand) Case {
 		if shape != "inner" {
 			lists(indent+"  ", mute, active)
 		}
-		sb.WriteString("receivers:\n  - name: default\n  - name: team\n")
+		sb.WriteString("receivers:\n  - name: default\n  - name: team\n  - name: pager\n")
 		sb.WriteString("mute_time_intervals:\n- name: " + parts[1])
 		if len(parts) > 2 {
 			sb.WriteString("time_intervals:\n")
@@ -315,6 +330,20 @@ type SysIn struct {
 	D     int64 `json:"second_group_delay_s"` // > 0: a second alert (second group of the same route) is submitted D s later
 	Sil   *SilIn `json:"silence,omitempty"`
 	NullRecv bool `json:"null_receiver,omitempty"` // the route's receiver has no integration
+	Sib   *SibIn `json:"siblings,omitempty"`
+}
+
+// SibIn: two SIBLING routes with identical matchers: "pager" (first, continue: true, no interval lists, short
+// group_interval GIp) and "team" (the route under test, with the lists, group_interval GI = 1h). Both aggregation
+// groups have the same group key under different route IDs. The alert resolves ResolveAfter s after Start: the pager
+// group flushes it away, becomes empty and is destroyed by the dispatcher's maintenance (30 s) while the team group
+// is still alive; at RefireAt the alert fires again. Queries: offsets from Start at which only the marker / API view
+// is looked at (while the alert is firing, so that the API lists the team group).
+type SibIn struct {
+	GIp          int64   `json:"pager_group_interval_s"`
+	ResolveAfter int64   `json:"resolve_after_s"`
+	RefireAt     int64   `json:"refire_at_s"`
+	Queries      []int64 `json:"queries_s"`
 }
 
 // SilIn: one silence covering EVERY alert of the group(s) of the route, created right after the (From-1)-th
@@ -326,8 +355,9 @@ type SilIn struct {
 }
 
 type sysEvent struct {
-	at  int64 // expected flush (tick) instant
-	gid int
+	at    int64 // expected flush (tick) instant, or the instant of a query
+	gid   int
+	query bool // no flush of the route under test here: only look at the marker / API
 }
 
 func (in *SysIn) groups() int {
@@ -340,10 +370,18 @@ func (in *SysIn) groups() int {
 // events: group g is created at Start+g*D, flushes first after group_wait and then every group_interval
 func (in *SysIn) events() []sysEvent {
 	var evs []sysEvent
+	if in.Sib != nil {
+		evs = append(evs, sysEvent{at: in.Start + in.GW})
+		for _, q := range in.Sib.Queries {
+			evs = append(evs, sysEvent{at: in.Start + q, query: true})
+		}
+		sort.Slice(evs, func(i, j int) bool { return evs[i].at < evs[j].at })
+		return evs
+	}
 	end := in.Start + int64(in.groups()-1)*in.D + in.GW + int64(in.K-1)*in.GI // the last group's K-th flush
 	for g := 0; g < in.groups(); g++ {
 		for at := in.Start + int64(g)*in.D + in.GW; at <= end; at += in.GI {
-			evs = append(evs, sysEvent{at, g})
+			evs = append(evs, sysEvent{at: at, gid: g})
 		}
 	}
 	sort.Slice(evs, func(i, j int) bool { return evs[i].at < evs[j].at })
@@ -368,6 +406,7 @@ type flushObs struct {
 	isMuted   bool
 	haveGroup bool
 	silenced  bool // every alert of the flush was covered by an active silence
+	query     bool // not a flush: only the marker / API were looked at
 	// GET /api/v2/alerts/groups after this flush
 	api        []apiGroup // every group of receiver "team" the API lists (default query), by group id
 	apiUnmuted []int      // group ids listed for ?muted=false
@@ -427,6 +466,7 @@ func (rn *runner) sys(c *Case) {
 		tis          []configTI
 	}{}
 	var fail string
+	pagerAlive, teamAlive := false, false
 	sysDepth := 0
 	if _, err := config.Load(c.YAML); err != nil {
 		rn.run.Violate("valid-spec-rejected", "config.Load rejected a well-formed configuration with time intervals: "+errClass(err), c)
@@ -443,7 +483,7 @@ func (rn *runner) sys(c *Case) {
 		sleepUntil(in.Start)
 		// ONE instance (one Intervener, one pipeline, one dispatcher) for the whole sequence of flushes
 		// receiver "team" has one scripted webhook, or (NullRecv) no integration at all: the usual null receiver
-		s := newMini(t, c.YAML, map[string]bool{"team": !in.NullRecv, "default": true})
+		s := newMini(t, c.YAML, map[string]bool{"team": !in.NullRecv, "default": true, "pager": true})
 		defer s.Stop()
 		for _, mt := range s.Conf.MuteTimeIntervals {
 			conf.tis = append(conf.tis, configTI{mt.Name, mt.TimeIntervals})
@@ -452,7 +492,7 @@ func (rn *runner) sys(c *Case) {
 			conf.tis = append(conf.tis, configTI{ti.Name, ti.TimeIntervals})
 		}
 		// the route the alerts end up in is the deepest one; its OWN lists are the model's reading of the config
-		child := s.Conf.Route.Routes[0]
+		child := s.Conf.Route.Routes[len(s.Conf.Route.Routes)-1] // siblings: the second of the two routes
 		depth := 2
 		for len(child.Routes) > 0 {
 			child = child.Routes[0]
@@ -471,11 +511,16 @@ func (rn *runner) sys(c *Case) {
 		})
 		put := func(g int) {
 			now := time.Now()
+			ends := now.Add(time.Duration(in.GI*int64(in.K+4))*time.Second + 240*time.Hour)
+			if in.Sib != nil && now.Unix() < in.Start+in.Sib.RefireAt {
+				ends = time.Unix(in.Start+in.Sib.ResolveAfter, 0) // resolves soon; fired again at RefireAt
+			}
 			s.PutAlert(t, &alert.Alert{Alert: model.Alert{Labels: model.LabelSet{"alertname": model.LabelValue(sysAlertNames[g]), "team": "x"},
-				StartsAt: now, EndsAt: now.Add(time.Duration(in.GI*int64(in.K+4))*time.Second + 240*time.Hour)}, UpdatedAt: now})
+				StartsAt: now, EndsAt: ends}, UpdatedAt: now})
 		}
 		put(0)
 		putB := in.groups() == 2
+		refired := false
 		seen := 0
 		silID := ""
 		for evIdx, ev := range evs {
@@ -497,6 +542,22 @@ func (rn *runner) sys(c *Case) {
 				if err := s.Silences.Expire(context.Background(), silID); err != nil {
 					t.Fatalf("silence Expire: %v", err)
 				}
+			}
+			if in.Sib != nil && !refired && in.Start+in.Sib.RefireAt <= ev.at {
+				sleepUntil(in.Start + in.Sib.RefireAt)
+				synctest.Wait()
+				// by now the pager group must be gone (that is the situation under test); the team group is alive
+				groups, _, _ := s.Disp.Groups(context.Background(), func(*dispatch.Route) bool { return true }, func(*alert.Alert, time.Time) bool { return true })
+				for _, g := range groups {
+					if g.Receiver == "pager" {
+						pagerAlive = true
+					}
+					if g.Receiver == "team" {
+						teamAlive = true
+					}
+				}
+				put(0)
+				refired = true
 			}
 			if putB && in.Start+in.D <= ev.at {
 				sleepUntil(in.Start + in.D)
@@ -526,6 +587,13 @@ func (rn *runner) sys(c *Case) {
 				}
 			}
 			seen = len(recs)
+			if ev.query {
+				if fo != nil {
+					fail = fmt.Sprintf("a flush of the route under test where only a query was planned (%d)", ev.at)
+					return
+				}
+				fo = &flushObs{gid: ev.gid, now: time.Unix(ev.at, 0), query: true}
+			}
 			if fo == nil {
 				fail = fmt.Sprintf("no flush observed at expected tick %d", ev.at)
 				return
@@ -594,16 +662,18 @@ func (rn *runner) sys(c *Case) {
 		if !f.haveGroup {
 			rn.run.Violate("group-missing-from-api", "the alert's group is not listed by dispatcher.Groups", c)
 		}
-		flushes = append(flushes, vh.App("mkFlush", vh.Nat(f.gid), vh.Z(f.now.Unix()), coqTzTableTI(conf.tis, f.now.Unix()),
+		flushes = append(flushes, vh.App("mkFlush", vh.Nat(f.gid), vh.Bool(f.query), vh.Z(f.now.Unix()), coqTzTableTI(conf.tis, f.now.Unix()),
 			vh.Bool(f.silenced), vh.Bool(!in.NullRecv), vh.Bool(f.notified), vh.ListOf(f.by, vh.Str), vh.Bool(f.isMuted),
 			vh.ListOf(f.api, func(g apiGroup) string { return vh.Pair(vh.Nat(g.gid), vh.ListOf(g.by, vh.Str)) }),
 			vh.ListOf(f.apiUnmuted, vh.Nat)))
-		if f.notified {
-			nPass++
-		} else {
-			nBlock++
+		if !f.query {
+			if f.notified {
+				nPass++
+			} else {
+				nBlock++
+			}
+			rn.run.Count("sys_flushes", fmt.Sprintf("notified:%v muted-in-api:%v", f.notified, f.isMuted))
 		}
-		rn.run.Count("sys_flushes", fmt.Sprintf("notified:%v muted-in-api:%v", f.notified, f.isMuted))
 		if i > 0 {
 			if gap := f.now.Unix() - obs[i-1].now.Unix(); gap < 60 {
 				rn.run.Count("sys_flushes", "less-than-60s-after-the-previous-evaluation")
@@ -611,7 +681,7 @@ func (rn *runner) sys(c *Case) {
 		}
 		// direct oracle: the gating statement on the whole instance
 		want := time.Unix(evs[i].at, 0)
-		if !f.now.Equal(want) {
+		if !f.query && !f.now.Equal(want) {
 			rn.run.Violate("flush-instant-not-the-tick", fmt.Sprintf("flush %d carried now=%s, the tick was at %s", i, f.now.UTC(), want.UTC()), c)
 		}
 		mutedBy, _ := specMutedBy(m, conf.mute, f.now)
@@ -626,6 +696,9 @@ func (rn *runner) sys(c *Case) {
 			wantBy = mutedBy
 		}
 		// direct oracle on the API view: EVERY listed group carries the names written at ITS OWN last flush
+		if f.query {
+			wantBy = lastWant[f.gid] // nothing was flushed: the entry written at the last flush must still be there
+		}
 		lastWant[f.gid] = wantBy
 		if f.apiErr != "" {
 			rn.run.Violate("api-groups-query-inconsistent", fmt.Sprintf("after sys flush %d: %s", i, f.apiErr), c)
@@ -653,6 +726,15 @@ func (rn *runner) sys(c *Case) {
 		if len(states) == 2 {
 			rn.run.Count("sys_flushes", "api: groups of the one route in opposite muted states")
 			opposite = true
+		}
+		if f.query {
+			if fmt.Sprint(asSet(f.by)) != fmt.Sprint(asSet(wantBy)) || f.isMuted != (len(wantBy) > 0) {
+				rn.run.Violate("marker-entry-lost-between-flushes", fmt.Sprintf("query %d at %s, no flush of the group since: the marker of its (route, group) holds %v/%v, its last flush wrote %v", i, f.now.UTC(), f.by, f.isMuted, wantBy), c)
+			}
+			if in.Sib != nil && f.now.Unix() >= in.Start+in.Sib.RefireAt {
+				rn.run.Count("sys_flushes", fmt.Sprintf("query after the sibling route's group with the same key was destroyed: sibling-gone:%v group-alive:%v muted:%v", !pagerAlive, teamAlive, len(wantBy) > 0))
+			}
+			continue
 		}
 		if f.silenced {
 			rn.run.Count("sys_flushes", fmt.Sprintf("fully-silenced flush, muted-by-interval:%v", blockedActive || blockedMute))
@@ -682,8 +764,9 @@ func (rn *runner) sys(c *Case) {
 	}
 	term := vh.App("CSys", vh.List(ivs), vh.ListOf(conf.mute, vh.Str), vh.ListOf(conf.active, vh.Str),
 		"[\n  "+strings.Join(flushes, ";\n  ")+"]")
-	rn.run.Add(term, c, len(conf.mute)+len(conf.active) > 0 && nPass > 0 && nBlock > 0)
+	rn.run.Add(term, c, len(conf.mute)+len(conf.active) > 0 && ((nPass > 0 && nBlock > 0) || (in.Sib != nil && nBlock > 0)))
 	rn.run.Count("sys_cases", fmt.Sprintf("groups:%d gi:%ds both-outcomes:%v", in.groups(), in.GI, nPass > 0 && nBlock > 0))
+	rn.run.Count("sys_cases", fmt.Sprintf("sibling routes with one group key:%v", in.Sib != nil))
 	rn.run.Count("sys_cases", fmt.Sprintf("receiver without integration:%v", in.NullRecv))
 	rn.run.Count("sys_cases", fmt.Sprintf("route depth:%d leaf has own lists:%v", sysDepth, len(conf.mute)+len(conf.active) > 0))
 	if in.groups() == 2 {
